@@ -1,4 +1,5 @@
 import CJ.Model.Codec
+import CJ.Model.Responder
 import CJ.Drv.Util
 /-! Driver for the codec models (C15, and the parsers of C11).
 
@@ -14,7 +15,13 @@ a text that is not in the table does not decode) → `nil` or `resp <message> <p
 `udpresp|hd|q|an|ns|ar|payload` (`dnsRespToUDPResp`) → `ok <wire hex>` / `err …`;
 `resppayload|buf|dom` (`recvLoop` + `dnsResponsePayload`) → `payload <hex>` (`payload -` for a nil or
 empty payload and for a datagram that does not parse);
-`lenient|buf` → the message `MessageFromWireFormat` returns next to its error, printed like `parse`. -/
+`lenient|buf` → the message `MessageFromWireFormat` returns next to its error, printed like `parse`;
+`dgram|buf|dom|maxudp|tbl` (the handler goroutine of `RecvAndRespond` on the datagram `buf`; `tbl` holds the
+base32 entries as for `respfor` and `craft:<framed request hex>=<craftResponse result hex | FAIL>`; a
+request that is not in the table fails) → `none` (nothing is written) / `sent <wire hex>` / `panic …`;
+`recvloop|perIter|addr:hex,…|steps` (the receive loop on the queued datagrams under the schedule
+`steps` = `r` / `h<i>` separated by blanks, handlers echo what they read) →
+`sent addr:hex,… seen hex,… left <queued>/<pending>` (sent sorted by address, seen sorted). -/
 namespace CJ.Drv.Codec
 open CJ.Codec CJ.Drv
 
@@ -134,6 +141,29 @@ def handle (args : List String) : Option String :=
     -- a nil payload and an empty one are the same packet for the requester's queue
     some ("payload " ++ toHex ((responsePayload (← parseHex buf) (← parseName dom)).getD []))
   | ["lenient", buf] => do some (showMessage (lenientParse (← parseHex buf)))
+  | ["dgram", buf, dom, maxudp, tbl] => do
+    let t ← parseTable tbl
+    let dec : Bytes → Option Bytes := fun text => look t s!"b32:{toHex text}"
+    let craft : Bytes → Option Bytes := fun f => look t s!"craft:{toHex f}"
+    some (match handleDatagram (← parseName dom) (← maxudp.toNat?) dec craft (← parseHex buf) with
+      | .ok none => "none"
+      | .ok (some d) => "sent " ++ toHex d
+      | .err e => "err " ++ showErr e
+      | .panic s => "panic " ++ s
+      | .hang => "hang")
+  | ["recvloop", perIter, dgrams, steps] => do
+    let per ← parseBool perIter
+    let q ← (fields dgrams ",").mapM fun d => match d.splitOn ":" with
+      | [a, x] => do some (⟨← a.toNat?, ← parseHex x⟩ : Dgram)
+      | _ => none
+    let sched ← (fields steps " ").mapM fun t =>
+      if t == "r" then some Step.recv
+      else if t.startsWith "h" then (t.drop 1).toNat?.map Step.run
+      else none
+    let s := Loop.run per (fun b => (some b, some b)) (Loop.init q) sched
+    let sent := (s.sent.toArray.qsort (fun a b => a.1 < b.1)).toList.map fun (a, d) => s!"{a}:{toHex d}"
+    some ("sent " ++ ",".intercalate sent ++ " seen " ++ ",".intercalate (sortStrings (s.seen.map toHex)) ++
+      s!" left {s.queue.length}/{s.pending.length}")
   | ["obfs", "ctr-obf", draws, rb, pt, publen, pub, tbl] => do
     let C := tableCrypto (← parseTable tbl)
     some (showOutcome toHex (ctrObfuscate C (← (fields draws ",").mapM parseHex) (← parseByte rb) (← parseHex pt)
